@@ -1077,6 +1077,8 @@ fn check_history(rng: &mut Rng, rep: &mut Report, cw: &mut CaseWriter, ui: usize
                 rep.count("marked_texts");
             }
             if let Some(cat) = diff_category(a, b) {
+                // grapheme clusters: mark positions are reported in widths, so changed cluster widths move them
+                let cat = if enc == TextEncoding::GraphemeCluster && cat == "mark-coverage" { "text-width" } else { cat };
                 fail_capped(rep, &format!("anon|{}state-shape|{}|{}", tag, cat, enc_name(enc)),
                     &format!("at heads {:?} object #{} ({}, id {}) differs in {}: {}", hexes(&hs1), oi, a.ty, cands1[oi].0, cat, describe_diff(a, b, cat)),
                     json!({"universe": ui, "source": source, "encoding": enc_name(enc), "log": h.log, "heads": hexes(&hs1), "object": format!("{}", cands1[oi].0), "object_index": oi,
@@ -1149,6 +1151,7 @@ fn check_history(rng: &mut Rng, rep: &mut Report, cw: &mut CaseWriter, ui: usize
                 match (guard(|| state_shape(&anon, &k2, &hs2)), guard(|| state_shape(&anon2, &k3, &hs3))) {
                     (Ok(Ok(a)), Ok(Ok(b))) => {
                         if let Some((oi, cat)) = a.iter().zip(b.iter()).enumerate().find_map(|(i, (x, y))| diff_category(x, y).map(|c| (i, c))) {
+                            let cat = if enc == TextEncoding::GraphemeCluster && cat == "mark-coverage" { "text-width" } else { cat };
                             fail_capped(rep, &format!("anon|{}twice|state-shape|{}|{}", tag, cat, enc_name(enc)),
                                 &format!("anonymize(anonymize(doc)): object #{} differs in {}: {}", oi, cat, describe_diff(&a[oi], &b[oi], cat)), replay.clone());
                         } else if a.len() != b.len() {
